@@ -44,7 +44,12 @@ def main(job_path, out_path):
         from d42.generation import Generator, RegexGenerator
         rnd = Random()
         if n % 3 == 0:
-            RegexGenerator(rnd, alphabet={"digits": "abcdef", "word": "-", "letters": "xyz"})
+            # a different customisation every time: were it to leak into the shared generator, every
+            # later run would see another alphabet
+            k = (n // 3) % 20
+            RegexGenerator(rnd, max_repeat=2 + k % 3,
+                           alphabet={"digits": "abcdefghijklmnopqrstuvwxyz"[k:k + 6], "word": "-+*"[k % 3],
+                                     "letters": "xyz"[k % 3:] + "q"})
         elif n % 3 == 1:
             Generator(rnd, RegexGenerator(rnd, max_repeat=3))
             d42.validate(d42.schema.list(d42.schema.int), [1, "a"])
